@@ -16,8 +16,8 @@ RULE = ("BFS over histories of callLater(d in {0,1,2}) with an optional one-step
         "getDelayedCalls() after every operation and inside every running call, and timeout() after every "
         "iteration are compared with a dict-of-times reference. non-trivial = distinct (state, exercised case) "
         "pairs for transitions that ran a call, rescheduled or cancelled a queued/staged call, or ran a script")
-BOUNDS = {"quick": "<= 4 live user calls, <= 1 scripted call per history; depth 5 (empty), 4 (armed-51), 4 (mixed 60+10), 3 (warm heap of 4)",
-          "thorough": "<= 4 live user calls, <= 2 scripted calls per history; depth 6 (empty), 5 (armed-51), 5 (mixed 60+10), 4 (warm heap of 4)"}
+BOUNDS = {"quick": "<= 4 live user calls, <= 1 scripted call per history; depth 5 (empty), 5 (armed-51), 4 (mixed 60+10), 4 (warm heap of 4)",
+          "thorough": "<= 4 live user calls, <= 2 scripted calls per history; depth 6 (empty), 6 (armed-51), 5 (mixed 60+10), 5 (warm heap of 4)"}
 ASSUMPTIONS = [
     "integer times: the reference and the reactor compute the same sums exactly",
     "canonical state = pending calls in creation order (time relative to now, script, flags) + the real heap and "
@@ -30,8 +30,8 @@ ASSUMPTIONS = [
 MIN = {"quick": {"states": 1, "nontrivial": 1, "outcomes": 1}}
 
 INITS = ["empty", "armed51", "mixed", "warm"]
-DEPTH = {"quick": {"empty": 5, "armed51": 4, "mixed": 4, "warm": 3},
-         "thorough": {"empty": 6, "armed51": 5, "mixed": 5, "warm": 4}}
+DEPTH = {"quick": {"empty": 5, "armed51": 5, "mixed": 4, "warm": 4},
+         "thorough": {"empty": 6, "armed51": 6, "mixed": 5, "warm": 5}}
 SCRIPTED = {"quick": 1, "thorough": 2}
 CAP = 4
 SCRIPT_IDS = tuple(range(1, 12))   # _timers.SCRIPTS[1..11]
@@ -84,7 +84,8 @@ def invariant(tm, hist):
 
 
 def canon(tm):
-    return tm.canon()
+    # 64-bit hash of the canonical tuple (70-slot heaps make the tuples large; PYTHONHASHSEED is fixed)
+    return hash(tm.canon())
 
 
 def _initial(init, prefix):
@@ -96,7 +97,7 @@ def _initial(init, prefix):
     return mk
 
 
-SPLIT = 1
+SPLIT = {"quick": 1, "thorough": 2}
 
 
 def _enabled(init, tier):
@@ -111,15 +112,15 @@ def shards(tier, seed):
         out.append(["pre", init, []])
         front = []
         en = _enabled(init, tier)
-        bfs(_initial(init, []), apply, en, canon, lambda st, h: (), SPLIT,
-            on_state=lambda st, h: front.append([list(e) for e in h]) if len(h) == SPLIT else None)
+        bfs(_initial(init, []), apply, en, canon, lambda st, h: (), SPLIT[tier],
+            on_state=lambda st, h: front.append([list(e) for e in h]) if len(h) == SPLIT[tier] else None)
         out.extend(["sub", init, h] for h in front)
     return out
 
 
 def run_shard(shard, tier, seed):
     mode, init, prefix = shard[0], shard[1], [tuple(e) for e in shard[2]]
-    depth = SPLIT if mode == "pre" else DEPTH[tier][init] - SPLIT
+    depth = SPLIT[tier] if mode == "pre" else DEPTH[tier][init] - SPLIT[tier]
     stats = Stats()
     en = _enabled(init, tier)
 
@@ -127,7 +128,7 @@ def run_shard(shard, tier, seed):
         fl = tm.last_flags
         if fl:
             key = tuple(sorted(fl))
-            stats.nt((init, tm.canon(), key))
+            stats.nt((init, hash(tm.canon()), key))
             for f in fl:
                 stats.outcome(f)
         return tm.bad
